@@ -110,6 +110,9 @@ type pathCtx struct {
 	doms     map[*Term]*byteDom
 	domSkips int
 	pend     []pendingAssert
+	tlsConns map[*value]*tlsState
+	tlsOK    bool
+	tlsProto value
 	codecs   map[*value]*codecState
 	regexps  map[*value]*regexState
 	symTime  bool
